@@ -11,10 +11,13 @@ NO_INLINE_DEFAULT = {"any_value::Unknown::is"}
 # (`cond.then(|| e)` is `if cond { Some(e) } else { None }`, `opt.map(|x| e)` is `match opt { Some(x) => Some(e), None => None }`)
 CLOSURE_COMBINATORS = {"core::bool::<impl bool>::then": "then", "core::option::Option::<T>::map": "map", "core::option::Option::<T>::and_then": "and_then",
                        "core::option::Option::<T>::filter": "filter", "core::option::Option::<T>::map_or": "map_or",
+                       "core::option::Option::<T>::is_some_and": "is_some_and",
+                       # `(a..b).for_each(|i| body)`: the closure body is the body of a loop over the range
+                       "core::iter::Iterator::for_each": "for_each",
                        # a closure value called directly: `f(x)` is `Fn::call(&f, (x,))`
                        "core::ops::Fn::call": "call", "core::ops::FnMut::call_mut": "call", "core::ops::FnOnce::call_once": "call"}
 # index of the closure among the call's arguments
-CLOSURE_ARG = {"then": 1, "map": 1, "and_then": 1, "filter": 1, "map_or": 2, "call": 0}
+CLOSURE_ARG = {"then": 1, "map": 1, "and_then": 1, "filter": 1, "map_or": 2, "call": 0, "is_some_and": 1, "for_each": 1}
 
 
 class Inst:
@@ -170,6 +173,10 @@ class Graph:
             if p.startswith(NO_INLINE_PREFIX):
                 continue
             comb = CLOSURE_COMBINATORS.get(p)
+            if comb == "for_each":
+                st0 = self.tcx.subst(callee.get("self_ty", {}), subst) if callee.get("self_ty") else {}
+                if not ty_str(st0).startswith(("core::ops::Range<", "core::iter::Rev<core::ops::Range<")):
+                    comb = None
             if comb and depth + 1 <= self.max_depth:
                 gargs = [self.tcx.subst(a, subst) for a in callee.get("generic_args", [])]
                 cl = [a for a in gargs if a.get("k") == "closure"]
@@ -244,8 +251,11 @@ class Graph:
             elif k == "return":
                 if inst.parent is not None:
                     cnode = self.nodes[inst.call_gid]
-                    for tg in cnode.data["term"].get("targets", []):
-                        n.succs.append((inst.parent.bmap[tg], "normal"))
+                    if cnode.closure_call == "for_each":
+                        n.succs.append((cnode.gid, "normal"))      # next iteration
+                    else:
+                        for tg in cnode.data["term"].get("targets", []):
+                            n.succs.append((inst.parent.bmap[tg], "normal"))
             elif k == "resume":
                 if inst.parent is not None:
                     ut = self.unwind_target(inst, "continue")
